@@ -37,7 +37,7 @@ impl Scalar {
             forall|i: int| 0 <= i < old(v)@.len() ==> final(v)@[i] == s_inv(old(v)@[i]),
     { unimplemented!() }
     #[verifier::external_body]
-    pub fn random_not_zero<R>(rng: &mut R) -> (r: Scalar) ensures r != Scalar::ZERO { unimplemented!() }
+    pub fn to_bytes(&self) -> (r: [u8; 32]) ensures r@ == scalar_bytes(*self) { unimplemented!() }
     #[verifier::external_body]
     pub fn as_bytes(&self) -> (r: &[u8; 32]) ensures r@ == scalar_bytes(*self) { unimplemented!() }
     #[verifier::external_body]
